@@ -185,7 +185,21 @@ def rule_pipeline(ctx, rep, rid="R-C06-pipeline"):
             rep.error(rid, fn + " not found")
             continue
         bb = bs[0]
-        ins = [c for c in bb.calls() if (c.callee or "").endswith(("HashMap::insert", "BTreeMap::insert"))]
+        # what fills the lookup table: insert calls, or a collect()/extend()/from_iter() into a map or set (the loop written as an iterator chain)
+        def fills_table(c):
+            nm = c.callee or c.u or ""
+            if nm.endswith(("HashMap::insert", "BTreeMap::insert", "HashSet::insert", "BTreeSet::insert")):
+                return True
+            last = nm.split("::")[-1]
+            ty = (bb.local_ty(c.dest[0]) or "") if not c.dest[1] else ""
+            if last in ("collect", "from_iter") and re.search(r"(Hash|BTree)(Map|Set)<", ty):
+                return True
+            if last == "extend" and c.args:
+                p0 = op_place(c.args[0])
+                t0 = bb.local_ty(bb.root(p0)[0]) if p0 is not None else ""
+                return bool(re.search(r"(Hash|BTree)(Map|Set)<", t0 or ""))
+            return False
+        ins = [c for c in bb.calls() if fills_table(c)]
         walks = [c for c in bb.calls() if (c.u or c.callee or "").endswith("Visitor::walk")]
         inst = "%s|collection loop before walk" % fn.split("::")[-2]
         w = "%s:%d" % (bb.f["file"], bb.f["line"])
